@@ -114,7 +114,20 @@ def run(R, tier, seed):
     R.assumptions += ["E1 instances: basis of bl symbolic bytes, op list of length 0..n with every op's KIND symbolic, copy offset any u64, copy length any u32, "
                       "literals up to m symbolic bytes, all header fields and verify_checksum symbolic; engines: CopiaSync::patch and the AsyncCopiaSync::patch state machine"]
     run_e1(R, tier, seed)
+    run_cli(R, tier, seed)
     run_kani(R, tier, seed)
+
+
+def run_cli(R, tier, seed):
+    """`copia patch` exit status: run_patch from MIR - the output is touched only by File::create and through AsyncCopiaSync::patch,
+    and Ok is returned only if that call returned Ok (the engine's own guarantee is what the other C05 obligations decide)."""
+    from mirsmt.prove import Prover
+    from . import clilib
+    R.assumptions += ["`copia patch` (run_patch from MIR): success only if AsyncCopiaSync::patch succeeded; no other write/truncate/set_len on the output; "
+                      "file system = recorded effects with arbitrary outcomes; the engine call is a summary"]
+    ctx = clilib.Ctx()
+    clilib.reader_obligation(ctx, R, Prover(R, tier), "C05", "patch")
+    clilib.native_validation(R, "C05")
 
 
 def run_kani(R, tier, seed):
@@ -123,7 +136,7 @@ def run_kani(R, tier, seed):
     R.assumptions += ["basis of 3 symbolic bytes; op lists of the shapes [], [C], [L], [C,L], [L,C], [C,C], [C,L,C]; copy length <= 4, literals <= 2 bytes; "
                       "block_size/source_size/basis_size/checksum/offsets fully symbolic",
                       "dev-profile semantics (debug assertions and overflow checks on); counterexamples are replayed in dev and release",
-                      "NOT covered: `copia patch` exit status (tokio file I/O), copy lengths up to 2^32 (allocation behaviour), longer op lists"]
+                      "NOT covered: copy lengths up to 2^32 (allocation behaviour), longer op lists"]
     fns = ["<CopiaSync as Sync>::patch", "Delta::validate", "Delta::expected_output_size", "StrongHash::compute"]
     quick = ["c", "cl"]
     thorough = ["empty", "c", "l", "cl", "lc", "cl_noverify", "cc", "clc"]
@@ -140,6 +153,10 @@ def run_kani(R, tier, seed):
 
 def replay(path):
     case = json.load(open(path))["case"]
+    if case.get("fn") == "cli_hostile_file":
+        from . import clilib
+        clilib.replay_case(case)
+        return 0
     case = {k: v for k, v in case.items() if k not in ("observed", "expected")}
     print(json.dumps(native.run_both(case), indent=1))
     return 0
